@@ -682,6 +682,57 @@ fn corpus_records() -> Vec<(String, Prog)> {
             ),
         ));
     }
+    // the target of a (compound) assignment is a field: `x3.f op= rhs` reads `x3.f` before `rhs`
+    // runs, whether `rhs` assigns that field or the whole record, and stores into the record
+    // `x3` holds afterwards; `x3.f = rhs` runs `rhs`, then stores
+    let start = || S::Let(3, Record(false, vec![(0, Var(0)), (1, Var(1)), (2, Int(3))]));
+    let other = || Record(true, vec![(2, Int(7)), (0, Int(8)), (1, Int(9))]);
+    for f in 0..FIELDS.len() {
+        let name = FIELDS[f];
+        out.push((
+            format!("x.{name} += rhs reads x.{name} first: rhs assigns x.{name}"),
+            main(
+                Blk {
+                    stmts: vec![start(), S::Do(E::CAssignF(Op::Add, 3, f, b(Block(Blk { stmts: vec![S::Do(E::AssignF(3, f, b(Int(100))))], last: Some(b(em(1, Int(1)))) }))))],
+                    last: Some(b(observe())),
+                },
+                vec![T::R],
+            ),
+        ));
+        out.push((
+            format!("x.{name} - rhs: the field is read before the right operand assigns it"),
+            main(
+                Blk {
+                    stmts: vec![start()],
+                    last: Some(b(Bin(Op::Sub, b(Field(b(Var(3)), f)), b(Block(Blk { stmts: vec![S::Do(E::AssignF(3, f, b(Int(100))))], last: Some(b(em(1, Field(b(Var(3)), f)))) }))))),
+                },
+                vec![T::R],
+            ),
+        ));
+        out.push((
+            format!("x.{name} -= rhs reads x.{name} first: rhs assigns x"),
+            main(
+                Blk {
+                    stmts: vec![start(), S::Do(E::CAssignF(Op::Sub, 3, f, b(Block(Blk { stmts: vec![S::Do(Assign(3, b(other())))], last: Some(b(em(1, Var(0)))) }))))],
+                    last: Some(b(observe())),
+                },
+                vec![T::R],
+            ),
+        ));
+        out.push((
+            format!("x.{name} = rhs: rhs runs (and may assign x), then the field is stored"),
+            main(
+                Blk {
+                    stmts: vec![
+                        start(),
+                        S::Do(E::AssignF(3, f, b(Block(Blk { stmts: vec![S::Do(Assign(3, b(other()))), S::Do(E::AssignF(3, f, b(em(1, Int(50)))))], last: Some(b(em(2, Field(b(Var(3)), f)))) })))),
+                    ],
+                    last: Some(b(observe())),
+                },
+                vec![T::R],
+            ),
+        ));
+    }
     out
 }
 
@@ -855,7 +906,7 @@ fn main() {
             if total_viol > rep.impl_violations.len() {
                 rep.notes.push(format!("{total_viol} violations found; the {} smallest with distinct keys are reported", rep.impl_violations.len()));
             }
-            rep.notes.push(format!("programs generated: {from}; argument tuples per program: 8; corpus programs: {} ({} one per clause of the statement, {} record literals: 6 written orders x 6 shapes)", corpus().len(), corpus_clauses().len(), corpus_records().len()));
+            rep.notes.push(format!("programs generated: {from}; argument tuples per program: 8; corpus programs: {} ({} one per clause of the statement, {} records: 6 written orders x 6 shapes of literal, 3 fields x 4 shapes of reading / assigning a field)", corpus().len(), corpus_clauses().len(), corpus_records().len()));
         }
         Some("worker") => {
             if std::env::var("C08_VERBOSE").is_err() {
